@@ -113,6 +113,10 @@ func tidOf(err error) int {
 
 const allocCap = 1 << 20 // reader-backed skippers allocate what the input declares
 
+// shieldExtra: how far beyond the input size a request to the underlying reader may go before the shield refuses
+// it (the raw sweep lowers it: its inputs are at most 3 bytes long, nothing they declare can be legitimate)
+var shieldExtra = allocCap
+
 var guardArena []byte
 
 // guardCopy places b so that it ends exactly at a PROT_NONE page: an out-of-slice load faults.
@@ -216,11 +220,11 @@ func runSkippers(b []byte, t int8, full bool, shapes int) []skipRes {
 	// 2./3. BufferReader.Skip and SkipDecoder over the bytes-backed and the io.Reader-backed bufiox reader
 	mk := func(sh int) (*shieldReader, string, *dataSource) {
 		if sh < 0 {
-			return &shieldReader{Reader: bufiox.NewBytesReader(b), limit: len(b) + allocCap}, "bytes", nil
+			return &shieldReader{Reader: bufiox.NewBytesReader(b), limit: len(b) + shieldExtra}, "bytes", nil
 		}
 		s := skipChunkShapes[sh]
 		src := &dataSource{data: b, chunks: s.chunks, wd: s.wd, fail: s.fail}
-		return &shieldReader{Reader: bufiox.NewDefaultReader(src), limit: len(b) + allocCap}, s.name, src
+		return &shieldReader{Reader: bufiox.NewDefaultReader(src), limit: len(b) + shieldExtra}, s.name, src
 	}
 	for sh := -1; sh < shapes && sh < len(skipChunkShapes); sh++ {
 		{
